@@ -10,6 +10,7 @@ For a DimAxis [i, j) (mod = period when periodic), all integers:
   opposite     IntAxis.opposite(ibound) is an involution and shifts the element by one towards the other side
   getitem      a[start:stop] keeps elements i+start .. i+stop-1 and is never periodic
 """
+import os
 import z3
 from pyvc.contract import Contract, State
 from pyvc.values import SInt, SBool, SObj, Sym, Unsupported, PyRaise, zint, zbool, pymod
@@ -186,9 +187,19 @@ class GetItem(Contract):
         return _replay('dimaxis_getitem(%r)' % (ob.model,))
 
 
+def _parked():
+    from contracts import c10_subset
+    return c10_subset.parked()
+
+
+# contracts that FAIL on the unchanged tree because nutils misbehaves (candidate defects, notes/C10-c10.md); kept, not weakened, and
+# left out of contracts() until the lead decides fix vs known finding.  `VERIF_C10_PARKED=1 ./check C10 --only nothing-kept` runs them.
+PARKED = _parked()
+
+
 def contracts():
-    from contracts import c10_structured
-    return [Interfaces(), Boundaries(), Refined(), RefinedBoundaries(), Opposite(), GetItem()] + c10_structured.contracts()
+    from contracts import c10_structured, c10_subset
+    return [Interfaces(), Boundaries(), Refined(), RefinedBoundaries(), Opposite(), GetItem()] + c10_structured.contracts() + c10_subset.contracts() + (PARKED if os.environ.get('VERIF_C10_PARKED') else [])
 
 
 TRUSTED = ['pyvc symbolic executor; generator DimAxis.boundaries evaluated eagerly; Axis.map as (i + ielem) mod period (proved inverse of unmap in C11)',
